@@ -277,6 +277,9 @@ class PointLikeTensor(ProjectiveTensor, ABC):
         z = array[..., -1, None]
         isinf = np.isclose(z, 0, atol=EQ_TOL_ABS)
         if np.all(isinf | (z == 1)):
+            if array.dtype.kind in "iu" and array.dtype.itemsize < np.dtype(int).itemsize:
+                # products of coordinates of a narrow integer type overflow (or wrap around zero, when the type is unsigned)
+                return array.astype(int)
             return array
         dtype = np.promote_types(np.float64, array.dtype)
         result = array.astype(dtype)
